@@ -55,6 +55,10 @@ type c02Scenario struct {
 	// Defaults: SecDefaultAction lines with a disruptive default for some phases;
 	// every generated rule states its own action (pass included), which wins
 	Defaults []string `json:"default_actions,omitempty"`
+	// Removed: id of a generated rule that a SecRuleRemoveById line after the
+	// rules takes out again; the others keep their configuration order
+	Removed   int `json:"removed_rule,omitempty"`
+	RemovedAt int `json:"removed_at,omitempty"`
 	// Pred: before the transaction under test, another one runs to completion on
 	// the same WAF with every token present (so that a ctl:ruleEngine rule fires)
 	// and is closed; the transaction under test gets the recycled object and must
@@ -128,8 +132,15 @@ func (sc *c02Scenario) text() string {
 		fmt.Fprintf(&sb, "SecAction \"id:900%d,phase:%d,pass,nolog\"\n", p, p)
 	}
 	for i := range sc.Rules {
+		if sc.Removed != 0 && i == sc.RemovedAt {
+			// the rule that is removed again below: it would fire for every request
+			fmt.Fprintf(&sb, "SecAction \"id:%d,phase:1,deny,status:418,log\"\n", sc.Removed)
+		}
 		sb.WriteString(sc.Rules[i].text())
 		sb.WriteByte('\n')
+	}
+	if sc.Removed != 0 {
+		fmt.Fprintf(&sb, "SecRuleRemoveById %d\n", sc.Removed)
 	}
 	return sb.String()
 }
@@ -218,6 +229,10 @@ func c02Gen(t *verifrt.Tape) *c02Scenario {
 			calls = append(calls, c02Call{Op: "resphdr", K: k, V: "yes"})
 		}
 	}
+	if t.Draw(6) == 0 {
+		// an interim response announced first (a second call of the same phase)
+		calls = append(calls, c02Call{Op: "p3", Code: []int{103, 100, 102}[t.Draw(3)]})
+	}
 	calls = append(calls, c02Call{Op: "p3", Code: []int{200, 200, 404, 500}[t.Draw(4)]})
 	nr := t.Draw(3)
 	for i := 0; i < nr; i++ {
@@ -253,6 +268,13 @@ func c02Gen(t *verifrt.Tape) *c02Scenario {
 		calls = out
 	}
 	sc.Calls = calls
+	if len(sc.Rules) >= 3 && t.Draw(4) == 0 {
+		// remove one of the generated rules again (not the last one)
+		k := t.Draw(len(sc.Rules) - 1)
+		sc.Removed = sc.Rules[k].ID
+		sc.Rules = append(sc.Rules[:k:k], sc.Rules[k+1:]...)
+		sc.RemovedAt = k
+	}
 	sc.Pred = t.Draw(4) == 0
 	if t.Draw(4) == 0 {
 		for _, ph := range []int{1, 2, 3, 4} {
